@@ -1,10 +1,388 @@
 /-
   Proofs/C19PPWidth.lean — helper lemmas for Props/C19_PPWidth.lean (line lengths, colour, reachability of errors).
+  Every lemma here is named `W_…`.
 -/
 import BitstringModel.Model.C19
 import BitstringModel.Proofs.Basic
+import Mathlib.Data.Nat.Log
 
 namespace BM.C19
 open BM
+
+/-! ## `cutMsb` / `cut` : sizes of the chunks -/
+
+theorem W_cutAux_fuel (n : Nat) (_hn : n ≠ 0) :
+    ∀ (f1 f2 : Nat) (l : Bits), l.length < f1 → l.length < f2 → cutAux n f1 l = cutAux n f2 l := by
+  intro f1
+  induction f1 with
+  | zero => intro f2 l h1; omega
+  | succ f1 ih =>
+    intro f2 l h1 h2
+    cases f2 with
+    | zero => omega
+    | succ f2 =>
+      simp only [cutAux]
+      by_cases hc0 : (l.take n).length = 0
+      · simp only [hc0, if_true]
+      · simp only [hc0, if_false]
+        by_cases hcn : (l.take n).length ≠ n
+        · rw [if_pos hcn, if_pos hcn]
+        · rw [if_neg hcn, if_neg hcn]
+          have hlen : (l.take n).length = n := by simpa using hcn
+          rw [List.length_take] at hlen
+          have hd : (l.drop n).length = l.length - n := List.length_drop
+          rw [ih f2 (l.drop n) (by omega) (by omega)]
+
+theorem W_cutMsb_nil (n : Nat) : cutMsb n [] = [] := by
+  simp [cutMsb, cutAux]
+
+theorem W_cutMsb_cons (n : Nat) (hn : n ≠ 0) (l : Bits) (hl : l ≠ []) :
+    cutMsb n l = l.take n :: cutMsb n (l.drop n) := by
+  have hpos : 0 < l.length := List.length_pos_iff.mpr hl
+  rw [show cutMsb n l = cutAux n (l.length + 1) l from rfl,
+    show cutMsb n (l.drop n) = cutAux n ((l.drop n).length + 1) (l.drop n) from rfl]
+  conv_lhs => simp only [cutAux]
+  have h0 : (l.take n).length ≠ 0 := by rw [List.length_take]; omega
+  rw [if_neg h0]
+  by_cases hcn : (l.take n).length ≠ n
+  · rw [if_pos hcn]
+    rw [List.length_take] at hcn
+    have : l.drop n = [] := List.drop_eq_nil_of_le (by omega)
+    rw [this]
+    simp [cutAux]
+  · rw [if_neg hcn]
+    have hd : (l.drop n).length = l.length - n := List.length_drop
+    rw [W_cutAux_fuel n hn l.length ((l.drop n).length + 1) (l.drop n) (by omega) (by omega)]
+
+theorem W_cutMsb_induct (n : Nat) (hn : n ≠ 0) (P : Bits → Prop) (h0 : P [])
+    (hs : ∀ l, l ≠ [] → P (l.drop n) → P l) : ∀ l, P l := by
+  intro l
+  generalize hk : l.length = k
+  induction k using Nat.strong_induction_on generalizing l with
+  | _ k ih =>
+    by_cases hl : l = []
+    · subst hl; exact h0
+    · apply hs l hl
+      have hpos : 0 < l.length := List.length_pos_iff.mpr hl
+      have hd : (l.drop n).length = l.length - n := List.length_drop
+      exact ih (l.drop n).length (by omega) (l.drop n) rfl
+
+/-- The shape of a chunk list: all that the width theorems need to know about `cut n l` (`L = l.length`). -/
+structure W_CutOK (n L : Nat) (cs : List Bits) : Prop where
+  size : ∀ g ∈ cs, 0 < g.length ∧ g.length ≤ n ∧ g.length ≤ L ∧ (g.length = n ∨ g.length = L % n)
+  sum : (cs.map List.length).sum = L
+  count : cs.length = (L + n - 1) / n
+  head : ∀ b0 rest, cs = b0 :: rest → ∀ g ∈ cs, g.length ≤ b0.length
+
+theorem W_cutMsb_ok (n : Nat) (hn : n ≠ 0) (l : Bits) : W_CutOK n l.length (cutMsb n l) := by
+  induction l using W_cutMsb_induct n hn with
+  | h0 =>
+    rw [W_cutMsb_nil]
+    refine ⟨by simp, by simp, ?_, by simp⟩
+    simp only [List.length_nil, Nat.zero_add]
+    rw [Nat.div_eq_of_lt (by omega)]
+  | hs l hl ih =>
+    have hpos : 0 < l.length := List.length_pos_iff.mpr hl
+    have hd : (l.drop n).length = l.length - n := List.length_drop
+    have ht : (l.take n).length = min n l.length := List.length_take
+    rw [W_cutMsb_cons n hn l hl]
+    rw [hd] at ih
+    have hmod : n ≤ l.length → (l.length - n) % n = l.length % n := fun h => (Nat.mod_eq_sub_mod h).symm
+    have hsz : ∀ g ∈ l.take n :: cutMsb n (l.drop n),
+        0 < g.length ∧ g.length ≤ n ∧ g.length ≤ l.length ∧ (g.length = n ∨ g.length = l.length % n) := by
+      intro g hg
+      rcases List.mem_cons.mp hg with rfl | hg
+      · rw [ht]
+        refine ⟨by omega, by omega, by omega, ?_⟩
+        rcases Nat.lt_or_ge l.length n with h | h
+        · right; rw [Nat.mod_eq_of_lt h]; omega
+        · left; omega
+      · have := ih.size g hg
+        rcases Nat.lt_or_ge l.length n with h | h
+        · omega
+        · rw [hmod h] at this; omega
+    refine ⟨hsz, ?_, ?_, ?_⟩
+    · simp only [List.map_cons, List.sum_cons, ih.sum, ht]; omega
+    · simp only [List.length_cons, ih.count]
+      rcases Nat.lt_or_ge l.length n with h | h
+      · have : l.length - n = 0 := by omega
+        rw [this, Nat.zero_add, Nat.div_eq_of_lt (by omega)]
+        symm
+        apply Nat.div_eq_of_lt_le <;> omega
+      · have : l.length + n - 1 = (l.length - n + n - 1) + n := by omega
+        rw [this, Nat.add_div_right _ (by omega)]
+    · intro b0 rest hcs g hg
+      injection hcs with hb0 _
+      subst hb0
+      have := hsz g hg
+      rw [ht]
+      omega
+
+theorem W_cut_ok (lsb0 : Bool) (n : Nat) (hn : n ≠ 0) (l : Bits) : W_CutOK n l.length (cut lsb0 n l) := by
+  cases lsb0 with
+  | false => simp only [cut, Bool.false_eq_true, if_false]; exact W_cutMsb_ok n hn l
+  | true =>
+    simp only [cut, if_true]
+    have h := W_cutMsb_ok n hn l.reverse
+    rw [List.length_reverse] at h
+    refine ⟨?_, ?_, ?_, ?_⟩
+    · intro g hg
+      rcases List.mem_map.mp hg with ⟨g', hg', rfl⟩
+      rw [List.length_reverse]; exact h.size g' hg'
+    · rw [List.map_map]
+      have : (List.length ∘ List.reverse : Bits → Nat) = List.length := by
+        funext x; simp
+      rw [this]; exact h.sum
+    · rw [List.length_map]; exact h.count
+    · intro b0 rest hcs g hg
+      rcases List.mem_map.mp hg with ⟨g', hg', rfl⟩
+      cases hc : cutMsb n l.reverse with
+      | nil => rw [hc] at hg'; simp at hg'
+      | cons c0 cr =>
+        rw [hc] at hcs
+        simp only [List.map_cons] at hcs
+        injection hcs with hb0 _
+        subst hb0
+        simp only [List.length_reverse]
+        exact h.head c0 cr hc g' hg'
+
+/-! ## decimal length -/
+
+theorem W_natDecAux_length : ∀ (fuel n : Nat) (acc : Str), n < fuel →
+    (natDecAux fuel n acc).length = acc.length + Nat.log 10 n + 1 := by
+  intro fuel
+  induction fuel with
+  | zero => intro n acc h; omega
+  | succ fuel ih =>
+    intro n acc h
+    simp only [natDecAux]
+    by_cases hn : n < 10
+    · rw [if_pos hn, Nat.log_of_lt hn]; simp
+    · rw [if_neg hn, ih (n / 10) _ (by omega), Nat.log_of_one_lt_of_le (by omega) (by omega : 10 ≤ n)]
+      simp only [List.length_cons]; omega
+
+theorem W_natDec_length (n : Nat) : (natDec n).length = Nat.log 10 n + 1 := by
+  unfold natDec; rw [W_natDecAux_length _ _ _ (by omega)]; simp
+
+theorem W_natDec_length_le {a b : Nat} (h : a ≤ b) : (natDec a).length ≤ (natDec b).length := by
+  rw [W_natDec_length, W_natDec_length]
+  have := Nat.log_mono_right (b := 10) h
+  omega
+
+/-! ## digits -/
+
+theorem W_binDigits_length : ∀ b : Bits, (binDigits b).length = b.length
+  | [] => rfl
+  | _ :: t => by simp [binDigits, W_binDigits_length t]
+
+theorem W_octDigits_length : ∀ b : Bits, (octDigits b).length = b.length / 3
+  | [] => rfl
+  | [_] => by simp [octDigits]
+  | [_, _] => by simp [octDigits]
+  | _ :: _ :: _ :: t => by
+    simp only [octDigits, List.length_cons, W_octDigits_length t]; omega
+
+theorem W_hexDigits_length : ∀ b : Bits, (hexDigits b).length = b.length / 4
+  | [] => rfl
+  | [_] => by simp [hexDigits]
+  | [_, _] => by simp [hexDigits]
+  | [_, _, _] => by simp [hexDigits]
+  | _ :: _ :: _ :: _ :: t => by
+    simp only [hexDigits, List.length_cons, W_hexDigits_length t]; omega
+
+theorem W_digits_length (f : Fmt) (b : Bits) : (digits f b).length = b.length / f.bpc := by
+  cases f
+  · simp [digits, Fmt.bpc, W_binDigits_length]
+  · simp [digits, Fmt.bpc, W_octDigits_length]
+  · simp [digits, Fmt.bpc, W_hexDigits_length]
+
+theorem W_b2c (f : Fmt) (n : Nat) : f.b2c n = n / f.bpc := by
+  cases f <;> simp [Fmt.b2c, Fmt.bpc]
+
+theorem W_bpc_pos (f : Fmt) : 0 < f.bpc := by cases f <;> decide
+
+theorem W_bitsPerChar (f : Fmt) : bitsPerChar f = f.bpc := by cases f <;> decide
+
+theorem W_bpc_dvd_24 (f : Fmt) : 24 % f.bpc = 0 := by cases f <;> decide
+
+/-! ## padding, joining -/
+
+theorem W_padRight_length (n : Nat) (s : Str) : (padRight n s).length = max n s.length := by
+  simp [padRight]; omega
+
+theorem W_padLeft_length (n : Nat) (s : Str) : (padLeft n s).length = max n s.length := by
+  simp [padLeft]; omega
+
+theorem W_joinSep_length (sep : Str) (n : Nat) : ∀ l : List Str, (∀ s ∈ l, s.length = n) →
+    (joinSep sep l).length = l.length * n + (l.length - 1) * sep.length
+  | [], _ => by simp [joinSep]
+  | [a], h => by simp [joinSep, h a]
+  | a :: b :: t, h => by
+    have ih := W_joinSep_length sep n (b :: t) (fun s hs => h s (List.mem_cons_of_mem _ hs))
+    have ha := h a (List.mem_cons_self ..)
+    simp only [joinSep, List.length_append, ih, ha, List.length_cons]
+    simp only [Nat.add_sub_cancel, Nat.add_mul, Nat.one_mul]
+    omega
+
+/-! ## `mapE` -/
+
+theorem W_mapE_ok {α β} (f : α → Except Err β) : ∀ (l : List α) (r : List β), mapE f l = .ok r →
+    r.length = l.length ∧ (∀ y ∈ r, ∃ x ∈ l, f x = .ok y) ∧ (∀ x ∈ l, ∃ y ∈ r, f x = .ok y)
+  | [], r, h => by
+    simp only [mapE, Except.ok.injEq] at h; subst h; simp
+  | a :: t, r, h => by
+    simp only [mapE] at h
+    cases hfa : f a with
+    | error e => rw [hfa] at h; simp at h
+    | ok b =>
+      rw [hfa] at h
+      cases ht : mapE f t with
+      | error e => rw [ht] at h; simp at h
+      | ok bs =>
+        rw [ht] at h
+        simp only [Except.ok.injEq] at h; subst h
+        have ih := W_mapE_ok f t bs ht
+        refine ⟨by simp [ih.1], ?_, ?_⟩
+        · intro y hy
+          rcases List.mem_cons.mp hy with rfl | hy
+          · exact ⟨a, List.mem_cons_self .., hfa⟩
+          · obtain ⟨x, hx, hfx⟩ := ih.2.1 y hy
+            exact ⟨x, List.mem_cons_of_mem _ hx, hfx⟩
+        · intro x hx
+          rcases List.mem_cons.mp hx with rfl | hx
+          · exact ⟨b, List.mem_cons_self .., hfa⟩
+          · obtain ⟨y, hy, hfx⟩ := ih.2.2 x hx
+            exact ⟨y, List.mem_cons_of_mem _ hy, hfx⟩
+
+theorem W_mapE_error {α β} (f : α → Except Err β) : ∀ (l : List α) (e : Err), mapE f l = .error e →
+    ∃ x ∈ l, f x = .error e
+  | [], e, h => by simp [mapE] at h
+  | a :: t, e, h => by
+    simp only [mapE] at h
+    cases hfa : f a with
+    | error e' =>
+      rw [hfa] at h; simp only [Except.error.injEq] at h; subst h
+      exact ⟨a, List.mem_cons_self .., hfa⟩
+    | ok b =>
+      rw [hfa] at h
+      cases ht : mapE f t with
+      | error e' =>
+        rw [ht] at h; simp only [Except.error.injEq] at h; subst h
+        obtain ⟨x, hx, hfx⟩ := W_mapE_error f t e' ht
+        exact ⟨x, List.mem_cons_of_mem _ hx, hfx⟩
+      | ok bs => rw [ht] at h; simp at h
+
+theorem W_mapE_succeeds {α β} (f : α → Except Err β) : ∀ (l : List α), (∀ x ∈ l, ∃ y, f x = .ok y) →
+    ∃ r, mapE f l = .ok r
+  | [], _ => ⟨[], rfl⟩
+  | a :: t, h => by
+    obtain ⟨b, hb⟩ := h a (List.mem_cons_self ..)
+    obtain ⟨bs, hbs⟩ := W_mapE_succeeds f t (fun x hx => h x (List.mem_cons_of_mem _ hx))
+    exact ⟨b :: bs, by simp [mapE, hb, hbs]⟩
+
+/-! ## `formatBits` -/
+
+/-- number of groups of a chunk of `len` bits -/
+def W_ng (bpg len : Nat) : Nat := if bpg = 0 then 1 else (len + bpg - 1) / bpg
+
+/-- length of the text of a chunk of `len` bits -/
+def W_xl (f : Fmt) (bpg S len : Nat) : Nat :=
+  if bpg = 0 then len / f.bpc else W_ng bpg len * f.b2c bpg + (W_ng bpg len - 1) * S
+
+theorem W_getDigits_ok {f : Fmt} {b : Bits} {d : Str} (h : getDigits f b = .ok d) :
+    b.length % f.bpc = 0 ∧ d = digits f b := by
+  unfold getDigits at h
+  by_cases hm : b.length % f.bpc ≠ 0
+  · rw [if_pos hm] at h; simp at h
+  · rw [if_neg hm] at h
+    simp only [Except.ok.injEq] at h
+    exact ⟨by omega, h.symm⟩
+
+theorem W_getDigits_error {f : Fmt} {b : Bits} {e : Err} (h : getDigits f b = .error e) : e = .value := by
+  unfold getDigits at h
+  by_cases hm : b.length % f.bpc ≠ 0
+  · rw [if_pos hm] at h; simp only [Except.error.injEq] at h; exact h.symm
+  · rw [if_neg hm] at h; simp at h
+
+theorem W_formatBits_error {lsb0 : Bool} {bits : Bits} {bpg : Nat} {sep : Str} {f : Fmt} {e : Err}
+    (h : formatBits lsb0 bits bpg sep f = .error e) : e = .value := by
+  unfold formatBits at h
+  by_cases hb : bpg = 0
+  · rw [if_pos hb] at h
+    cases hg : getDigits f bits with
+    | error e' => rw [hg] at h; simp only [Except.error.injEq] at h; subst h; exact W_getDigits_error hg
+    | ok d => rw [hg] at h; simp at h
+  · rw [if_neg hb] at h
+    cases hg : mapE (getDigits f) (cut lsb0 bpg bits) with
+    | error e' =>
+      rw [hg] at h; simp only [Except.error.injEq] at h; subst h
+      obtain ⟨x, _, hx⟩ := W_mapE_error _ _ _ hg
+      exact W_getDigits_error hx
+    | ok d => rw [hg] at h; simp at h
+
+theorem W_formatBits_zero {lsb0 : Bool} {bits : Bits} {sep : Str} {f : Fmt} {fb : Fb}
+    (h : formatBits lsb0 bits 0 sep f = .ok fb) :
+    bits.length % f.bpc = 0 ∧ fb.groups = [digits f bits] ∧ fb.x = digits f bits := by
+  unfold formatBits at h
+  rw [if_pos rfl] at h
+  cases hg : getDigits f bits with
+  | error e' => rw [hg] at h; simp at h
+  | ok d =>
+    rw [hg] at h; simp only [Except.ok.injEq] at h; subst h
+    obtain ⟨h1, h2⟩ := W_getDigits_ok hg
+    exact ⟨h1, by rw [h2], h2⟩
+
+theorem W_formatBits_pos {lsb0 : Bool} {bits : Bits} {bpg : Nat} {sep : Str} {f : Fmt} {fb : Fb}
+    (hb : bpg ≠ 0) (h : formatBits lsb0 bits bpg sep f = .ok fb) :
+    fb.groups.length = (bits.length + bpg - 1) / bpg ∧
+    fb.x = joinSep sep (fb.groups.map (if lsb0 then padLeft (f.b2c bpg) else padRight (f.b2c bpg))) ∧
+    (∀ g ∈ fb.groups, g.length ≤ f.b2c bpg ∧ ∃ b, g = digits f b) ∧
+    (bits ≠ [] → 1 ≤ f.b2c bpg) := by
+  unfold formatBits at h
+  rw [if_neg hb] at h
+  cases hg : mapE (getDigits f) (cut lsb0 bpg bits) with
+  | error e' => rw [hg] at h; simp at h
+  | ok gs =>
+    rw [hg] at h; simp only [Except.ok.injEq] at h; subst h
+    obtain ⟨hlen, hmem, _⟩ := W_mapE_ok _ _ _ hg
+    have hcut := W_cut_ok lsb0 bpg hb bits
+    have hgrp : ∀ g ∈ gs, g.length ≤ f.b2c bpg ∧ ∃ b, g = digits f b := by
+      intro g hg
+      obtain ⟨b, hbm, hgb⟩ := hmem g hg
+      obtain ⟨_, h2⟩ := W_getDigits_ok hgb
+      refine ⟨?_, b, h2⟩
+      rw [h2, W_digits_length, W_b2c]
+      exact Nat.div_le_div_right (hcut.size b hbm).2.1
+    refine ⟨by rw [hlen, hcut.count], rfl, hgrp, ?_⟩
+    intro hne
+    have hpos : 0 < bits.length := List.length_pos_iff.mpr hne
+    have hc : 0 < (cut lsb0 bpg bits).length := by
+      rw [hcut.count]; exact Nat.div_pos (by omega) (by omega)
+    obtain ⟨b, hbm⟩ := List.exists_mem_of_length_pos hc
+    obtain ⟨y, _, hy⟩ := (W_mapE_ok _ _ _ hg).2.2 b hbm
+    obtain ⟨h1, _⟩ := W_getDigits_ok hy
+    have hsz := hcut.size b hbm
+    rw [W_b2c]
+    have hbp := W_bpc_pos f
+    have : f.bpc ≤ b.length := Nat.le_of_dvd hsz.1 (Nat.dvd_of_mod_eq_zero h1)
+    exact Nat.div_pos (by omega) hbp
+
+theorem W_formatBits_len {lsb0 : Bool} {bits : Bits} {bpg : Nat} {sep : Str} {f : Fmt} {fb : Fb}
+    (h : formatBits lsb0 bits bpg sep f = .ok fb) :
+    fb.groups.length = W_ng bpg bits.length ∧ fb.x.length = W_xl f bpg sep.length bits.length := by
+  by_cases hb : bpg = 0
+  · subst hb
+    obtain ⟨_, h2, h3⟩ := W_formatBits_zero h
+    simp [W_ng, W_xl, h2, h3, W_digits_length]
+  · obtain ⟨h1, h2, h3, _⟩ := W_formatBits_pos hb h
+    simp only [W_ng, W_xl, if_neg hb]
+    refine ⟨h1, ?_⟩
+    rw [h2, W_joinSep_length sep (f.b2c bpg), List.length_map, h1]
+    intro s hs
+    rcases List.mem_map.mp hs with ⟨g, hg, rfl⟩
+    have := (h3 g hg).1
+    cases lsb0
+    · simp only [Bool.false_eq_true, if_false, W_padRight_length]; omega
+    · simp only [if_true, W_padLeft_length]; omega
 
 end BM.C19
